@@ -709,7 +709,7 @@ def r05_7(ctx, prog, crate):
 def r05_8(ctx, prog, crate):
     """What an input counter counts: XCount::of_iter(iter) is the number of items the iterator YIELDS - iter.into_iter()
     .count() - never an estimate (size_hint's upper bound is only a maximum for filter / take_while / chars ...)."""
-    fns = [b for b in prog.lib_bodies(crate) if b.path.startswith("counter::") and b.path.endswith("::of_iter") and b.kind != "Closure"]
+    fns = [b for b in prog.lib_bodies(crate) if b.path.startswith("counter::") and b.path.endswith("::of_iter") and b.kind != "Closure" and "::tests::" not in b.path and "::benches::" not in b.path]
     if not ctx.anchor("R05.8", "counter constructors of_iter", fns, 2):
         return
     for b in fns:
